@@ -1077,13 +1077,15 @@ impl Formatter {
             self.writer.write(" if ");
             self.format_expr(&guard.node);
         }
-        self.writer.write(" => ");
+        self.writer.write(" =>");
         match &arm.body {
             MatchBody::Expr(expr) => {
+                self.writer.write(" ");
                 self.format_expr(&expr.node);
                 self.writer.newline();
             }
             MatchBody::Block(stmts) => {
+                // no trailing blank after the arrow when the body follows on its own lines
                 self.writer.newline();
                 self.writer.indent();
                 for stmt in stmts {
